@@ -5,6 +5,7 @@ package main
 
 import (
 	"fmt"
+	"os"
 	"go/types"
 	"strconv"
 	"strings"
@@ -180,6 +181,22 @@ func (c *Ctx) load(h *Heap, l *Loc) Val {
 	for i, a := range l.accs {
 		v[i] = c.loadAcc(h, a)
 		// references stored in the entry heap denote objects that existed at entry
+		// every cell of a fixed-width integer memory holds a value of that width (all stores wrap)
+		if os.Getenv("GVC_NO_RNG") == "" && c.noBind == 0 && a.leaf.Kind == KInt && a.leaf.Lo != nil && !isLiteral(v[i]) && !c.lazyDone["rng@"+v[i]] {
+			c.lazyDone["rng@"+v[i]] = true
+			c.asserts = append(c.asserts, between(numBig(a.leaf.Lo), v[i], numBig(a.leaf.Hi)))
+		}
+		// no memory cell holds the address of an object whose address was never handed out
+		if os.Getenv("GVC_NO_PRIV") == "" && c.noBind == 0 && a.leaf.Kind == KRef && !isLiteral(v[i]) && c.privUsed {
+			pv := c.heapGet(h, privMem, privSort)
+			if pv != "((as const (Array Int Bool)) false)" {
+				key := "priv@" + pv + "@" + v[i]
+				if !c.lazyDone[key] {
+					c.lazyDone[key] = true
+					c.asserts = append(c.asserts, not(sel(pv, v[i])))
+				}
+			}
+		}
 		if c.noBind == 0 && a.leaf.Kind == KRef && isEntryHeapTerm(v[i]) && !c.lazyDone["entryref@"+v[i]] {
 			c.lazyDone["entryref@"+v[i]] = true
 			c.asserts = append(c.asserts, lt(v[i], "|alloc@0|"))
